@@ -23,6 +23,53 @@ def _camel(s):
     return parts[0] + "".join(p.capitalize() for p in parts[1:])
 
 
+def probe_mix_rule():
+    """Does the live `can_pack` keep a RELU-type operator and a TANH / SIGMOID operator out of one pass (proposed repair
+    /verif_patches/C01-31)?  Probed by packing  Placeholder -> Sigmoid -> Relu6  and  Placeholder -> Relu -> Tanh  (real Operation /
+    Tensor / Subgraph objects): two NPU passes each = the rule is there, one each = it is not; anything else: the probe no longer
+    understands the function and the plug-in fails."""
+    from ethosu.vela import pass_packing as pp
+    from ethosu.vela.data_type import DataType
+    from ethosu.vela.nn_graph import Graph, PassPlacement, Subgraph
+    from ethosu.vela.operation import Op, Operation
+    from ethosu.vela.shape4d import Shape4D
+    from ethosu.vela.tensor import Tensor, TensorPurpose
+
+    def npu_passes(first, second):
+        def fm(name):
+            t = Tensor([1, 4, 4, 8], DataType.int16, name)
+            t.purpose = TensorPurpose.FeatureMap
+            return t
+
+        x, y, z = fm("x"), fm("y"), fm("z")
+        ph = Operation(Op.Placeholder, "in")
+        ph.run_on_npu = False
+        ph.outputs.append(x)
+        x.ops.append(ph)
+        prev = x
+        for kind, out in ((first, y), (second, z)):
+            o = Operation(kind, kind.name)
+            o.add_input_tensor(prev)
+            o.outputs.append(out)
+            out.ops.append(o)
+            o.ifm_shapes.append(Shape4D([1, 4, 4, 8]))
+            o.ofm_shapes.append(Shape4D([1, 4, 4, 8]))
+            prev = out
+        nng, sg = Graph(), Subgraph()
+        nng.subgraphs.append(sg)
+        sg.output_tensors = [z]
+        nng.refresh_after_modification()
+        pp.pack_into_passes(nng, None)
+        return sum(1 for ps in sg.passes if ps.placement == PassPlacement.Npu)
+
+    a, b = npu_passes(Op.Sigmoid, Op.Relu6), npu_passes(Op.Relu, Op.Tanh)
+    if (a, b) == (1, 1):
+        return False
+    if (a, b) == (2, 2):
+        return True
+    raise ValueError(f"probe of the RELU / TANH-SIGMOID packing rule: {a} and {b} NPU passes")
+
+
 def emit(repo):
     from ethosu.vela import pass_packing as pp
     from ethosu.vela.nn_graph import PassPlacement
@@ -109,6 +156,10 @@ def testSequenceSets : List String := {lit(seq_names)}
 
 /-! operator types the code names explicitly -/
 {nameddefs}
+
+/-- rule switch probed on the live `pack_into_passes` (see `probe_mix_rule`): `can_pack` keeps RELU-type and TANH / SIGMOID
+    operators out of one pass (proposed repair /verif_patches/C01-31) -/
+def reluTanhSigmoidRule : Bool := {lit(probe_mix_rule())}
 
 /-! tensor.TensorPurpose values the code compares with -/
 def purposeFeatureMap : Nat := {int(TensorPurpose.FeatureMap.value)}
